@@ -23,7 +23,7 @@ ASSUMPTIONS = [
     "the event-loop clock is monotonic",
     "vendor protocol: toggle / +-1 step / control-method change accumulate when repeated (AirTouch 4 v1.6 p.4,7; AirTouch 5 v1.2 p.5,8)",
 ]
-FLOORS = {"C02.R1": 3, "C02.R2": 4, "C02.R3": 1, "C02.R4": 5, "C02.R5": 20, "C02.R6": 8, "C02.R7": 1, "C02.R8": 1}
+FLOORS = {"C02.R1": 3, "C02.R2": 4, "C02.R3": 1, "C02.R4": 5, "C02.R5": 20, "C02.R6": 8, "C02.R7": 1, "C02.R8": 1, "C02.R9": 1}
 
 SENDERS = [
     (AT4_API, "At4Zone._send_group_control_message"),
@@ -45,6 +45,7 @@ def run(ctx):
     from .common import reuse
 
     reuse(ctx, "C02.R7", [c01.r2], "the pending queue is mutated only at its two ends by enqueue/drain (a failed idempotent command stays queued until it is re-sent)")
+    reuse(ctx, "C02.R9", [c01.r3], "a re-queued command is written again as soon as a connection exists: the queue is drained after every successful connect and after every enqueue (C01.R3)")
     from . import c07
 
     reuse(ctx, "C02.R8", [c07.r9], "while is_connected is True a writer is stored whenever another task can run: a command re-queued after a write failure is not popped by a concurrent send during the disconnect and then dropped because _write finds no stream (C07.R9)",
